@@ -3,7 +3,7 @@ The worker's `staged` op runs source -> PL -> JSON -> PL -> RQ -> JSON -> RQ -> 
 public json::* functions and compares values (PartialEq), re-serialised bytes and final output."""
 import re
 from .. import core, corpus
-from ..gen import grel, gfeat
+from ..gen import grel, gfeat, gnest
 
 FEATURE_PROGRAMS = [
     "from t | select {i = 9223372036854775807, j = -9223372036854775807, f = 0.1, g = 1e300, h = 5e-324, k = 1.7976931348623157e308}",
@@ -83,6 +83,7 @@ def run(tier, seed):
     run = core.Run("C15", tier, seed)
     rng = core.shard_rng(seed, "C15", 0)
     srcs = list(FEATURE_PROGRAMS) + corpus.sources() + [src for _, src in gfeat.programs() if len(src) < 3000]
+    srcs += [src for _, src in (gnest.two_level()[seed % 3::3] if tier == "quick" else gnest.programs(3))]
     n_rel = 1200 if tier == "quick" else 6000
     for prof in ("core", "window", "project"):
         srcs += [grel.random_program_text(rng, prof) for _ in range(n_rel // 3)]
